@@ -13,6 +13,7 @@ CONSTANTS
   MaxTxs = 2
   AllowEvidence = TRUE
   AllowAbsent = FALSE
+  MaxChecks = 0
   AllowRestart = FALSE
   AllowNoProposer = FALSE
   KnownD8 = TRUE
